@@ -1,11 +1,13 @@
 package main
 
 import (
+	"context"
 	"fmt"
 	"net"
 	"strings"
 	"time"
 
+	dtlsserver "github.com/plgd-dev/go-coap/v3/dtls/server"
 	"github.com/plgd-dev/go-coap/v3/message"
 	"github.com/plgd-dev/go-coap/v3/message/codes"
 	"github.com/plgd-dev/go-coap/v3/message/pool"
@@ -280,7 +282,86 @@ func tcpDefaultServerScenario(depth int) *mcx.Scenario {
 	}
 }
 
+// A dtls server whose per-connection monitor comes from the real options: the handshake of a peer takes a
+// while (slow PSK / certificate callback, retransmissions). The time the handshake took is not silence of an
+// established connection: the first period starts when the connection exists.
+func dtlsHandshakeScenario(depth int) *mcx.Scenario {
+	name := fmt.Sprintf("dtls-server inactivity monitor via options, slow handshake, period=%v depth=%d", P, depth)
+	return &mcx.Scenario{
+		Name:   name,
+		Bounds: mcx.Bounds{Preempt: 0, Env: -1, Select: 0, Delay: 1},
+		Opt:    vrt.Options{MaxSteps: 600000},
+		Body: func(s *vrt.Sched) func() (string, []mcx.Finding) {
+			var hist []string
+			var fs []mcx.Finding
+			fail := func(sig, format string, a ...any) {
+				fs = append(fs, mcx.Finding{Sig: sig, What: name + ": " + fmt.Sprintf(format, a...) + "; history [" + strings.Join(hist, " ") + "]"})
+			}
+			vrt.App("env", func() {
+				closedByMonitor := 0
+				mon := options.WithInactivityMonitor(P, func(cc *udpclient.Conn) {
+					closedByMonitor++
+					_ = cc.Close()
+				})
+				established := false
+				d := srvw.NewDTLS(srvw.StreamOpts{HSTimeout: 100 * P, DTLSExtra: func(cfg *dtlsserver.Config) { mon.DTLSServerApply(cfg) },
+					OnNewDTLS: func(*udpclient.Conn) { established = true }})
+				vrt.Quiesce("env: server up")
+				hsGo := false
+				d.L.Connect("10.0.0.11:1000", func(context.Context) error {
+					vrt.WaitUntil("handshake in progress", func() bool { return hsGo })
+					return nil
+				})
+				vrt.Quiesce("env: handshake started")
+				hsDur := []time.Duration{0, P / 2, P - eps, P + eps, 3 * P}[vrt.Choose(5, nil)]
+				hist = append(hist, fmt.Sprintf("handshake takes %v", hsDur))
+				vrt.Advance(hsDur)
+				hsGo = true
+				vrt.Quiesce("env: handshake done")
+				if !established {
+					fail("ENGINE/setup", "the connection was not established")
+					return
+				}
+				last := vrt.Now() // the connection exists from now on
+				for step := 0; step < depth; step++ {
+					e := []string{"tick(P/2)", "tick(P+e)"}[vrt.Choose(2, nil)]
+					hist = append(hist, e)
+					dd := P / 2
+					if e == "tick(P+e)" {
+						dd = P + eps
+					}
+					vrt.Advance(dd)
+					before := closedByMonitor
+					if d.Tick == nil {
+						fail("server/no-housekeeping", "the server did not register its housekeeping function")
+						return
+					}
+					d.Tick(vrt.Now())
+					vrt.Quiesce("env: tick handled")
+					due := vrt.Now().After(last.Add(P))
+					closedNow := closedByMonitor > before
+					switch {
+					case closedNow && !due:
+						fail("server/closed-without-full-silent-period", "the connection was closed %v after it was established (period %v): the handshake time was counted as silence", vrt.Now().Sub(last), P)
+						return
+					case !closedNow && due:
+						fail("server/not-closed-when-due", "the connection was not closed %v after it was established", vrt.Now().Sub(last))
+						return
+					}
+					if closedNow {
+						return
+					}
+				}
+				d.S.Stop()
+				vrt.Quiesce("env: stopped")
+			})
+			return func() (string, []mcx.Finding) { return "dtlshs:" + strings.Join(hist, " "), fs }
+		},
+	}
+}
+
 func addServerLevel(r *ev.Run, scs *[]*mcx.Scenario) {
+	*scs = append(*scs, dtlsHandshakeScenario(ev.Pick(r, 3, 4)))
 	*scs = append(*scs, tcpDefaultServerScenario(ev.Pick(r, 6, 8)))
 	*scs = append(*scs, serverScenario(ev.Pick(r, 5, 6), 0))
 	*scs = append(*scs, serverScenario(ev.Pick(r, 5, 7), 2))
